@@ -3918,6 +3918,8 @@ def determine_column_projection(expr, parent, dependents, additional_columns=Non
         column_union = _sort_mixed(pd.Index(list(flattened_columns))).tolist()
     if (
         len(column_union) == 1
+        # the result of a reduction is a Series as well if a list is selected from it
+        and expr.ndim == 2
         and parent.ndim == 1
         and all(p.ndim == 1 for p in parents)
     ):
@@ -3952,6 +3954,10 @@ def _keyed_by_column(arg):
 
 
 def plain_column_projection(expr, parent, dependents, additional_columns=None):
+    if expr.frame.ndim < 2:
+        # A selection from something that is computed from a Series (operations on
+        # the result of a reduction) selects rows, there are no columns to prune
+        return
     column_union = determine_column_projection(
         expr, parent, dependents, additional_columns=additional_columns
     )
